@@ -1,4 +1,6 @@
 """Strategies for create options and edit requests (JSON-able)."""
+import os
+
 from hypothesis import strategies as st
 
 URL_POOL = [
@@ -13,7 +15,9 @@ def url(cli_safe=False):
     s = st.one_of(st.sampled_from(URL_POOL), free)
     s = s.filter(lambda u: u.strip() == u and not any(ch.isspace() for ch in u) and u != "")
     if cli_safe:
-        s = s.filter(lambda u: not u.startswith("-"))
+        # on the command line a list flag may swallow the content path, and the tool's documented recovery asks which of the
+        # values is an existing path: a "url" such as "." or "a/.." names one (the cwd) and is not a url anyone means
+        s = s.filter(lambda u: not u.startswith("-") and not os.path.exists(u) and set(u) - set("./"))
     return s
 
 
